@@ -6,7 +6,7 @@
 (* draws); the expected value is computed from NormString, Pin, Integrity, *)
 (* MatrixCard and Srp6.                                                    *)
 (***************************************************************************)
-EXTENDS NormString, Pin, Integrity, MatrixCard, Srp6, SequencesExt, TraceBase
+EXTENDS NormString, Pin, Integrity, MatrixCard, Srp6, Errors, SequencesExt, TraceBase
 
 vars == <<l, bad, stat>>
 Init == BaseInit
@@ -35,7 +35,10 @@ TrNorm ==
        DonePure(<< <<"C13.total", \A k \in 1..n : e.res[k].kind # "panic">>,
                    <<"C13.accept", \A k \in 1..n : (e.res[k].kind = "ok") = (exp.kind = "ok")>>,
                    <<"C13.result", \A k \in 1..n : e.res[k].kind # "panic" => NormOK(e.res[k], exp)>>,
-                   <<"C13.ctorsAgree", \A k \in 1..n : e.res[k] = e.res[1]>> >>,
+                   <<"C13.ctorsAgree", \A k \in 1..n : e.res[k] = e.res[1]>>,
+                   <<"EXT.display", \A k \in 1..n :
+                        /\ (e.res[k].kind = "errLen" => e.res[k].etext = TooLongText)
+                        /\ (e.res[k].kind = "errChar" => e.res[k].etext = NotAllowedText(e.res[k].cp))>> >>,
                 {"Norm", "Norm." \o exp.kind}
                 \cup (IF Utf8Total(e.cps) \in {16, 17} THEN {"Norm.atLengthLimit"} ELSE {})
                 \cup (IF \E k \in 1..Len(e.cps) : e.cps[k] > 127 THEN {"Norm.multibyte"} ELSE {}))
